@@ -25,6 +25,7 @@ fn main() {
         "layout-types" => println!("{}", probe_cmd::LAYOUT_TYPES.join(" ")),
         "leak" => probe_cmd::leak(),
         "nucleo-cols" => probe_cmd::nucleo_cols(),
+        "capacity" => probe_cmd::capacity(),
         "scratch-probe" => scratch_cmd::run(&args[2..]),
         _ => {
             eprintln!("usage: hn boxcar FILE | layout TYPE [CASE] | leak | ...");
